@@ -84,14 +84,17 @@ func (k *keyCase) verifyBothMu(t *rapid.T, kind string, mu [64]byte, sig []byte)
 	return want
 }
 
-// drawCtx draws a context: mostly valid lengths 0..255, sometimes too long.
+// drawCtx draws a context: mostly valid lengths 0..255, sometimes too long. The kind of length is an
+// equal-weight choice: the empty context (what every Tink primitive uses) in 6 of 20 draws, a
+// non-empty one in at least 12 of 20 (rapid's IntRange made the empty one 61 %, which left the
+// candidates that need a non-empty context out of most cases).
 func drawCtx(t *rapid.T, label string, allowLong bool) []byte {
 	var n int
-	switch k := rapid.IntRange(0, 19).Draw(t, label+"_lkind"); {
+	switch k := gen.Uniform(t, label+"_lkind", 20); {
 	case k < 6:
 		n = 0
 	case k < 10:
-		n = rapid.SampledFrom([]int{1, 2, 31, 32, 64, 127, 128, 254, 255}).Draw(t, label+"_ledge")
+		n = gen.Pick(t, label+"_ledge", []int{1, 2, 31, 32, 64, 127, 128, 254, 255})
 	case k < 18 || !allowLong:
 		n = rapid.IntRange(0, 255).Draw(t, label+"_len")
 	default:
@@ -393,11 +396,24 @@ func TestScheme(t *testing.T) {
 		try("drop-first", msg, ctx, sig[1:])
 		mm := gen.Mutate(rt, "msgmut", msg)
 		try("other-message/"+mm.Kind, mm.Out, ctx, sig)
+		// another context, different by construction (two empty draws, or the shrinker, gave ctx2 == ctx:
+		// the candidate was then the genuine input)
 		ctx2 := drawCtx(rt, "ctx2", false)
+		if bytes.Equal(ctx2, ctx) {
+			if len(ctx2) == 0 {
+				ctx2 = []byte{rapid.Byte().Draw(rt, "ctx2_byte")}
+			} else {
+				ctx2 = flipBit(ctx2, rapid.IntRange(0, 8*len(ctx2)-1).Draw(rt, "ctx2_bit"))
+			}
+			evid.Add("other_ctx_made_different", 1)
+		}
 		try("other-ctx", msg, ctx2, sig)
 		if len(ctx) > 0 {
 			try("ctx-dropped", msg, nil, sig)
 			try("ctx-moved-into-message", append(append([]byte{}, ctx...), msg...), nil, sig)
+			// the FIPS 204 framing 0 || len(ctx) || ctx moved into the message, signed-for context empty
+			try("ctx-framing-moved-into-message", append(append([]byte{0, byte(len(ctx))}, ctx...), msg...), nil, sig)
+			evid.Add("ctx_dropped_candidates", 3)
 		}
 		try("random-bytes", msg, ctx, gen.BytesN(rt, "randomsig", p.SigSize))
 		sm := gen.Mutate(rt, "sigmut", sig)
@@ -424,12 +440,14 @@ func TestScheme(t *testing.T) {
 		}
 		// other public key / other secret key
 		seed2 := gen.BytesN(rt, "seed2", 32)
-		if !bytes.Equal(seed2, seed) {
-			k2 := newKeyCase(rt, ps, seed2)
-			candidates++
-			if k2.verifyBoth(rt, "other-public-key", msg, ctx, sig) {
-				accepted++
-			}
+		if bytes.Equal(seed2, seed) {
+			seed2 = flipBit(seed2, rapid.IntRange(0, 255).Draw(rt, "seed2_bit")) // another key by construction
+			evid.Add("other_key_seed_made_different", 1)
+		}
+		k2 := newKeyCase(rt, ps, seed2)
+		candidates++
+		if k2.verifyBoth(rt, "other-public-key", msg, ctx, sig) {
+			accepted++
 		}
 		// another parameter set's verifier on these bytes (length differs: must be rejected by both)
 		other := psets[(rapid.IntRange(1, 2).Draw(rt, "otherpset")+indexOf(ps))%3]
@@ -598,10 +616,16 @@ func TestBoundarySignatures(t *testing.T) {
 		detrand.Seed(entropy)
 		ps := drawPset(rt)
 		p := ps.ref
-		ck := craftKinds[rapid.IntRange(0, len(craftKinds)-1).Draw(rt, "kind")]
+		ck := gen.Pick(rt, "kind", craftKinds)
 		seed := gen.BytesN(rt, "seed", 32)
 		msg := gen.Bytes(rt, "msg", 256)
 		ctx := drawCtx(rt, "ctx", false)
+		// every second case signs for the empty context: that is the only one signature/mldsa uses, so
+		// the crafted signature can also be put before that package's verifier (below)
+		throughAPI := gen.OneIn(rt, "through_signature_mldsa", 2)
+		if throughAPI {
+			ctx = []byte{}
+		}
 		rndSeed := rapid.Uint64().Draw(rt, "rndseed")
 		k := newKeyCase(rt, ps, seed)
 		mPrime, _ := mldsaref.FormatMessage(msg, ctx)
@@ -638,6 +662,19 @@ func TestBoundarySignatures(t *testing.T) {
 		} else {
 			evid.Add("crafted_rejected/"+key, 1)
 		}
+		// the crafted signature behind the key's output prefix through signature/mldsa (a drawn variant, id
+		// and route of the same seed): "Verify accepts exactly the byte strings the reference accepts,
+		// including signatures on the norm, hint-count and encoding boundaries" is stated for Verify as
+		// observed through signature.NewVerifier too, and an honest signer practically never produces
+		// these signatures, so TestTinkMLDSA's own candidates do not reach them.
+		if throughAPI {
+			c := newAPICase(rt, ps, gen.Pick(rt, "variant", mldsaVariants), gen.KeyID(rt, "id"), gen.Pick(rt, "route", []string{"handle", "key"}), seed)
+			got := c.try(rt, "crafted:"+ck.name+"/through-signature-mldsa", append(append([]byte{}, c.prefix...), sig...), msg)
+			if got != ok {
+				rt.Fatalf("harness: the reference decision on prefix || crafted signature (%v) differs from the one on the crafted signature (%v): %v %s", got, ok, c, desc)
+			}
+			evid.Add(fmt.Sprintf("crafted_through_signature_mldsa/%s/%s", ck.name, map[bool]string{true: "acc", false: "rej"}[got]), 1)
+		}
 		// what was crafted, measured on the encoded signature
 		_, z, h, dok := mldsaref.SigDecode(p, sig)
 		zInf, weight := int64(-1), -1
@@ -660,6 +697,9 @@ func TestBoundarySignatures(t *testing.T) {
 		hv, hk := hintVariants(rt, p, sig)
 		for i := range hv {
 			k.verifyBoth(rt, "crafted+"+hk[i], msg, ctx, hv[i])
+			n++
+		}
+		if throughAPI {
 			n++
 		}
 		evid.Add("verify_candidates", int64(n+2))
